@@ -37,3 +37,31 @@ func init() {
 		return 0
 	})
 }
+
+func init() {
+	core.Register(&core.Check{Prop: "SXDEV", Level: "model_checking", Run: func(c *core.Ctx) error {
+		scheds, err := sx.SimulatedSchedules(c, 3, 60, c.Seed, false)
+		if err != nil {
+			return err
+		}
+		for i, sch := range scheds {
+			dir := filepath.Join(c.TempDir("sxdev"), "idx")
+			t0 := time.Now()
+			r, s, err := sx.RunSchedule(dir, sch, 1, nil)
+			if err != nil {
+				return err
+			}
+			r.Settle(20 * time.Second)
+			r.Close()
+			fmt.Printf("schedule %d: %d steps in %v\n", i, len(sch.Steps), time.Since(t0))
+			for j, st := range sch.Steps {
+				fmt.Printf("  %2d %-3s %-12s %s\n", j, st.Proc, st.Action, s.Taken[j])
+			}
+		}
+		c.Eval(1)
+		c.Distinct("a")
+		c.Distinct("b")
+		c.Sample("dev")
+		return nil
+	}})
+}
